@@ -1,4 +1,5 @@
 import Gnmi.Model.WireIngest
+import Gnmi.Model.ManagerOpt
 import Driver.RX
 import Driver.CA
 /-!
@@ -19,6 +20,10 @@ Operations → observations:
       events   the feed from Connect to the last response (delete runs grouped and sorted)
       content  every leaf of every target: `<target><path>@<ts>=<value|A<n>>#<raw prefix>|<raw updates>`
       meta     the metadata of `<name>`
+* `wi opt <mask 0..15> <resps>`
+    a Manager built by `NewManager` from a Config holding exactly the callbacks of the mask (1 Connect,
+    2 Sync, 4 Update, 8 Reset; the others nil), its `handleUpdates` over the scripted stream
+    → `panic` | `[C|S|U|R,…]` the callbacks invoked, in order (`Model/ManagerOpt.lean`)
 * `wi subs <cache> <nodup 0|1> <first req> <later reqs: - | req(&req)*>`
     → `ok:<rounds: [keys]:<synced>(/[keys]:<synced>)*>:r<later requests read>` | `err:<code>` | `panic`
 The spec column is the model column with `panic` replaced by `must-not-panic` when every message is
@@ -102,6 +107,17 @@ def step (s : St) (args : List String) : St × String × String :=
           renderContent o.state ++ ";" ++ md ++ ";" ++ bracket (sortStrs (r.2.map renderEventW)) ++ ";" ++
           renderContent r.1
     (s, m, RX.spec (rs.all (·.wireValid)) m)
+  | ["opt", mask, resps] =>
+    let k := mask.toNat?.getD 0
+    let mk : MgrOpt.Mask := ⟨k % 2 == 1, (k / 2) % 2 == 1, (k / 4) % 2 == 1, (k / 8) % 2 == 1⟩
+    let rs := RX.parseResps resps
+    let letter : MgrOpt.Cb → String
+      | .connect => "C" | .sync => "S" | .update => "U" | .reset => "R"
+    let m := match MgrOpt.optSession mk rs with
+      | .ok l => bracket (l.map letter)
+      | .panic => "panic"
+      | .err _ => "err"
+    (s, m, RX.spec (rs.all (fun r => match r with | .nilMsg => false | _ => true)) m)
   | ["subs", c, nd, first, later] =>
     let cv := RX.parseCache c
     let first := RX.parseReq first
